@@ -116,6 +116,17 @@ add("C05", "model_checking",
     "Lattice direction bundles; sizes fixed via [ volumes ]; pairs exactly on the cut-off are don't-care.",
     "§3 C05")
 
-for _p in ["C06", "C07", "C08", "C09", "C12",
+add("C08", "exploration",
+    "bounded-exhaustive enumeration of include trees from a grammar against a reference flattener and the generator's own prediction",
+    "About 1100 tree shapes (force-field layout x #define placement x conditional-include kind for a molecule incl. #else "
+    "branches with an alternative definition x #error kind and position x conditional include after an inline molecule x nested "
+    "directories with ../-relative includes x missing file behind an inactive condition) each combined with a rotating subset of "
+    "all [ molecules ] lists <=3 entries and with comment/blank/whitespace noise are written to disk and read with the real reader "
+    "from a foreign working directory; the digest must equal that of the reference-flattened single file and the generator's "
+    "prediction, #error must abort iff active, instances of a repeated name must be independent copies.",
+    "Whole-section-unit files, #define outside conditionals; known findings F08* (pragmas after a started moleculetype are not evaluated) tolerated by predicate.",
+    "§4 C08")
+
+for _p in ["C06", "C07", "C09", "C12",
            "C15", "C18", "C20"]:
     NOT_YET[_p] = "check under construction in this session (bounded exhaustive exploration applies; see DESIGN.md)"
